@@ -3,6 +3,8 @@ import OsacaVerif.Spec.Deps
 import OsacaVerif.Gen.Consts
 import OsacaVerif.Lemmas.LCDPaths
 import OsacaVerif.Lemmas.LCDPost
+import OsacaVerif.Lemmas.DGEdges
+import OsacaVerif.Lemmas.Winding
 /-
   C05 — Loop-carried dependencies are exactly the cross-iteration dependency cycles.
   (Model: `LCD.lcd`; independent oracle: `Spec.cycles`.)
@@ -179,6 +181,152 @@ theorem post_represents (off : Nat) (paths : List (List (Nat × Rat))) (p : List
 example :
     (post 1000 [[(3, 1), (5, 4)], [(5, 4), (1003, 1)], [(4, 2)]]).map (fun e => (e.lines, e.lats, e.latency)) =
       [([3, 5], [1, 4], 5), ([4], [2], 2)] := by
+  decide +kernel
+
+/-! ### forward edges, one boundary crossing, sorted normal form -/
+
+/-- **emissions_forward** (∀ kernels with strictly increasing lines): every edge of the dependency
+    graph whose source is an instruction node goes to a strictly larger line (the graph is a DAG in
+    line order); with `dedupLast_subset` and `Props.C03.findDepending_forward`. -/
+theorem emissions_forward (isa : Isa) (fd : Bool) (par : Params) (k : List Ins) (hwf : WFKernel k) :
+    ForwardEdges (create isa fd par k) := by
+  intro e he hs
+  exact (emissions_shape isa fd par k hwf e (dedupLast_subset _ e he)).2.1 hs
+
+/-- every edge of the graph joins lines of the kernel and enters an instruction node -/
+theorem create_nodes (isa : Isa) (fd : Bool) (par : Params) (k : List Ins) (hwf : WFKernel k) :
+    ∀ e ∈ create isa fd par k, e.dst.load = false ∧ (∃ p ∈ k, p.line = e.src.line) ∧ (∃ c ∈ k, c.line = e.dst.line) := by
+  intro e he
+  have := emissions_shape isa fd par k hwf e (dedupLast_subset _ e he)
+  exact ⟨this.1, this.2.2.2⟩
+
+/-- **double_wf**: the doubled kernel (second copy renumbered by the offset) again has strictly
+    increasing lines — because the offset exceeds every line (`offset_ok`). -/
+theorem double_wf (floor : Nat) (k : List Ins) (hwf : WFKernel k) : WFKernel (double (offsetOf floor k) k) := by
+  unfold WFKernel double at *
+  rw [List.map_append, List.pairwise_append]
+  refine ⟨hwf, ?_, ?_⟩
+  · rw [List.map_map, List.pairwise_map]
+    rw [List.pairwise_map] at hwf
+    exact hwf.imp (fun h => by simp only [Function.comp_apply]; omega)
+  · intro a ha b hb
+    obtain ⟨x, hx, rfl⟩ := List.mem_map.mp ha
+    obtain ⟨y', hy', rfl⟩ := List.mem_map.mp hb
+    obtain ⟨y, _, rfl⟩ := List.mem_map.mp hy'
+    have := offset_ok floor k x hx
+    simp only; omega
+
+/-- **path_increasing**: on a graph with forward edges every path the search returns has strictly
+    increasing vertices, all smaller than the target. -/
+theorem path_increasing (es : List Edge) (hf : ForwardEdges es) (tgt fuel cur : Nat) (visited : List Nat)
+    (p : List (Nat × Rat)) (hp : p ∈ pathsFrom es tgt fuel cur visited) :
+    (verts p ++ [tgt]).Pairwise (· < ·) :=
+  walk_increasing es hf tgt p (pathsFrom_sound_aux es tgt fuel cur visited p hp).2.1
+
+/-- **winding1_sorted**: a path `i ⇝ i + off` over forward edges crosses from the first kernel copy
+    (`< off`) to the second (`≥ off`) exactly once — it *is* its first-copy part followed by its
+    second-copy part; mapped back modulo `off` and sorted it is the second part followed by the first
+    (listed from its smallest line it is ascending); the resulting lines are strictly ascending, so
+    every instruction occurs at most once, and the path's vertices are recovered from its start and
+    its member lines: the key (the line list) determines the member set and, with the start, the path. -/
+theorem winding1_sorted (es : List Edge) (hf : ForwardEdges es) (off i fuel : Nat) (visited : List Nat)
+    (p : List (Nat × Rat)) (hp : p ∈ pathsFrom es (i + off) fuel i visited) :
+    p = firstCopy off p ++ secondCopy off p ∧
+    normPath off p = (secondCopy off p).map (back off) ++ firstCopy off p ∧
+    ((normPath off p).map (·.1)).Pairwise (· < ·) ∧
+    verts p = ((normPath off p).map (·.1)).filter (fun l => i ≤ l) ++
+      (((normPath off p).map (·.1)).filter (fun l => l < i)).map (· + off) := by
+  have hinc := path_increasing es hf (i + off) fuel i visited p hp
+  have hhead := (pathsFrom_sound_aux es (i + off) fuel i visited p hp).1
+  obtain ⟨h1, h2, h3⟩ := winding_norm off i p hinc hhead
+  exact ⟨h1, h2, h3, verts_of_lines off i p hinc hhead⟩
+
+/-- the doubled graph the LCD search runs on -/
+def lcdGraph (isa : Isa) (fd : Bool) (par : Params) (floor : Nat) (k : List Ins) : List Edge :=
+  create isa fd par (double (offsetOf floor k) k)
+
+/-- **fuel_suffices**: in the doubled graph of a well-formed kernel every simple path has at most
+    `2·|k|` edges, so the fuel `2·|k| + 1` of `lcd` never cuts a path off. -/
+theorem fuel_suffices (isa : Isa) (fd : Bool) (par : Params) (floor : Nat) (k : List Ins) (hwf : WFKernel k)
+    (src tgt : Nat) (p : List (Nat × Rat)) (hp : IsSimplePath (lcdGraph isa fd par floor k) src tgt p) :
+    p.length ≤ 2 * k.length := by
+  obtain ⟨_, hw, hn, _⟩ := hp
+  have hsub : verts p ⊆ (double (offsetOf floor k) k).map (·.line) := by
+    intro v hv
+    obtain ⟨x, hx, rfl⟩ := List.mem_map.mp hv
+    have hmem : ∀ (q : List (Nat × Rat)), IsWalk (lcdGraph isa fd par floor k) tgt q → ∀ y ∈ q,
+        ∃ m w, (m, w) ∈ succs (lcdGraph isa fd par floor k) y.1 := by
+      intro q
+      induction q with
+      | nil => intro _ y hy; cases hy
+      | cons z zs ih =>
+        intro hq y hy
+        rcases List.mem_cons.mp hy with rfl | hy
+        · exact ⟨_, _, hq.1⟩
+        · exact ih hq.2 y hy
+    obtain ⟨m, w, hmw⟩ := hmem p hw x hx
+    simp only [succs, List.mem_filterMap] at hmw
+    obtain ⟨e, he, hc⟩ := hmw
+    by_cases hcond : (!e.src.load && e.src.line == x.1 && !e.dst.load) = true
+    · simp only [Bool.and_eq_true, Bool.not_eq_true', beq_iff_eq] at hcond
+      obtain ⟨_, ⟨q, hq, hql⟩, _⟩ := create_nodes isa fd par _ (double_wf floor k hwf) e he
+      exact List.mem_map.mpr ⟨q, hq, by rw [hql, hcond.1.2]⟩
+    · rw [if_neg hcond] at hc; cases hc
+  have := hn.length_le_of_subset hsub
+  simpa [verts, double, Nat.two_mul] using this
+
+/-- **lcd_paths_exact**: for a well-formed kernel the paths `lcd` hands to the post-processing are
+    exactly the simple paths `line ⇝ line + offset` of the doubled graph, for the lines of the kernel
+    (no fuel bound left in the statement). -/
+theorem lcd_paths_exact (isa : Isa) (fd : Bool) (par : Params) (floor : Nat) (k : List Ins) (hwf : WFKernel k)
+    (i : Ins) (p : List (Nat × Rat)) :
+    p ∈ pathsFrom (lcdGraph isa fd par floor k) (i.line + offsetOf floor k) (2 * k.length + 1) i.line [i.line] ↔
+      IsSimplePath (lcdGraph isa fd par floor k) i.line (i.line + offsetOf floor k) p := by
+  rw [pathsFrom_iff _ _ _ _ _ (by simp)]
+  constructor
+  · exact fun h => h.1
+  · intro h
+    refine ⟨h, ?_, by have := fuel_suffices isa fd par floor k hwf _ _ p h; omega⟩
+    intro v hv hc
+    obtain ⟨h1, _, h3, _⟩ := h
+    cases hp : verts p with
+    | nil => rw [hp] at hv; cases hv
+    | cons a t =>
+      rw [hp] at h1 h3 hv
+      simp only [List.head?_cons, Option.some.injEq] at h1
+      simp only [List.mem_singleton] at hc
+      subst h1 hc
+      exact (List.nodup_cons.mp h3).1 hv
+
+/-- **lcd_entry_shape**: every entry `lcd` reports for a well-formed kernel comes from a simple
+    path `i ⇝ i + offset` (for an instruction `i` of the kernel) in the doubled graph; its lines are
+    strictly ascending (each member once), they are that path's vertices mapped back, and its
+    latency is the sum of the path's edge weights. -/
+theorem lcd_entry_shape (isa : Isa) (fd : Bool) (par : Params) (floor : Nat) (k : List Ins) (hwf : WFKernel k)
+    (e : Entry) (he : e ∈ lcd isa fd par floor k) :
+    ∃ i ∈ k, ∃ p, IsSimplePath (lcdGraph isa fd par floor k) i.line (i.line + offsetOf floor k) p ∧
+      e.lines = (normPath (offsetOf floor k) p).map (·.1) ∧ e.lats = (normPath (offsetOf floor k) p).map (·.2) ∧
+      e.lines.Pairwise (· < ·) ∧ e.lines.Perm ((verts p).map (backLine (offsetOf floor k))) ∧
+      e.latency = (p.map (·.2)).sum := by
+  obtain ⟨p, hp, h1, h2, h3, _, h5, _, _⟩ := entry_latency _ _ e he
+  obtain ⟨i, hi, hp⟩ := List.mem_flatMap.mp hp
+  have hf : ForwardEdges (lcdGraph isa fd par floor k) := emissions_forward isa fd par _ (double_wf floor k hwf)
+  have hw := winding1_sorted _ hf _ _ _ _ p hp
+  refine ⟨i, hi, p, (lcd_paths_exact isa fd par floor k hwf i p).mp hp, h1, h2, ?_, h5, h3⟩
+  rw [h1]; exact hw.2.2.1
+
+-- non-vacuity: a concrete well-formed kernel (lines 3 < 4 < 7), its doubled kernel is well-formed,
+-- its graph has forward edges; a concrete winding-1 path and its normal form
+example :
+    let r (n : String) : Op := .reg { name := Text.ofString n }
+    let mk (line : Nat) (src dst sd : List Op) (lat : Rat) : Ins :=
+      { line := line, src := src, dst := dst, srcDst := sd, lat := lat, latWoLoad := none, hasLd := false,
+        isLd := false, changes := [], changesPost := [] }
+    let k := [mk 3 [r "rbx"] [r "rax"] [] 4, mk 4 [r "rax"] [r "rcx"] [] 1, mk 7 [r "rcx"] [r "rbx"] [] 2]
+    WFKernel k ∧ WFKernel (double (offsetOf 1000 k) k) ∧ ForwardEdges (create .x86 false {} (double (offsetOf 1000 k) k)) ∧
+    pathsFrom (lcdGraph .x86 false {} 1000 k) 1004 7 4 [4] = [[(4, 1), (7, 2), (1003, 4)]] ∧
+    normPath 1000 [(4, 1), (7, 2), (1003, 4)] = [(3, 4), (4, 1), (7, 2)] ∧
+    (lcd .x86 false {} 1000 k).map (fun e => (e.lines, e.latency)) = [([3, 4, 7], 7)] := by
   decide +kernel
 
 -- non-vacuity: a two-instruction accumulation loop has exactly one loop-carried cycle
